@@ -107,6 +107,11 @@ package metadata
 //@   loop 1: invariant len(old(data)) == 0 ==> len(m.protocols) == old(len(m.protocols))
 //@   loop 1: decreases len(data) - read
 //@   at call NewBuffer#1: assert suffix(arg0, old(data), read)
+// each transport reads from a bytes.Buffer over exactly the rest of the input (a Buffer, unlike a Reader,
+// lets a transport with an empty payload at the very end decode without io.EOF)
+//@   ghost rd := zero("*bytes.Buffer")
+//@   at call NewBuffer#1: after ghost rd := result
+//@   at call ReadFrom#1: assert typeis(arg1, "*bytes.Buffer") && payload(arg1) == rd
 //@   at call FromUvarint#1: assert suffix(arg0, old(data), read)
 //@   ensures result == nil && old(len(m.protocols)) == 0 ==> len(old(data)) > 0
 
@@ -181,9 +186,17 @@ package metadata
 //@   property C11
 //@   requires c != nil && c.r != nil
 
+// Equal compares position by position (values are kept sorted by protocol ID, so this is equality of
+// the encodings): equal lengths, and the i-th transports equal for every i.
 //@ func (Metadata).Equal
 //@   property C11
 //@   requires forall(i, 0, len(m.protocols), m.protocols[i] != nil) && forall(i, 0, len(other.protocols), other.protocols[i] != nil)
+//@   at call protocolEqual#1: assert arg0 == m.protocols[rangeindex] && arg1 == other.protocols[rangeindex]
+//@   loop 1: invariant rangeindex < len(m.protocols) && len(m.protocols) == len(other.protocols)
+//@   loop 1: exhaustive
+//@   loop 1: iteration ensures itercount("call:protocolEqual") == 1
+//@   ensures-local result ==> len(m.protocols) == len(other.protocols)
+//@   ensures-local len(m.protocols) != len(other.protocols) ==> !result && count("call:protocolEqual") == 0
 
 //@ func protocolEqual
 //@   property C11
